@@ -75,11 +75,35 @@ def run(ctx):
         fn = "bottleneck" if t % 2 == 0 else "wasserstein"
         jobs.append(dict(kind="matching", fn=fn, S=[[e.f(b), e.f(d)] for b, d in S], T=[[e.f(b), e.f(d)] for b, d in T], ax_is_current=rng.random() < 0.5))
         skel.append(dict(kind="matching", fn=fn, S=S, T=T, q=Q, emb=e))
+    n3 = 120 if quick else 1200
+    for t in range(n3):
+        e = E[t % len(E)]
+        lkind = 1 + t % 2
+        nb = rng.randint(1, 4)
+        bars = []
+        while len(bars) < nb:
+            b, d = rng.randrange(0, 12, 2), rng.randrange(2, 16, 2)
+            if b < d and [b, d] not in bars:
+                bars.append([b, d])
+        dr = None
+        if rng.random() < 0.4:
+            lo = rng.randint(0, 1)
+            dr = [lo, lo + rng.randint(1, 2)]
+        title = rng.choice(["", "T"]); labels = rng.choice([[], ["xx", "yy"]])
+        job = dict(kind="landscape", lkind=lkind, bars=[[e.f(b), e.f(d)] for b, d in bars], title=title, labels=labels, depth_range=dr, dispatch=rng.random() < 0.5,
+                   ax_is_current=rng.random() < 0.5)
+        if lkind == 2:
+            if [0, 16] not in bars:
+                bars.append([0, 16])        # a bar spanning the grid: the sampled landscape is never the "empty" sentinel
+                job["bars"] = [[e.f(b), e.f(d)] for b, d in bars]
+            job.update(start=e.f(0), stop=e.f(16), n=rng.choice([5, 9, 17]))
+        jobs.append(job)
+        skel.append(dict(kind="landscape", q=Q, emb=e, title=title, wantx=(labels[0] if labels else ""), wanty=(labels[1] if labels else ""), dr=dr))
     results, _ = run_driver_parallel("plots.py", jobs, nproc=12)
     cases, idx = [], []
     for i, (sk, r) in enumerate(zip(skel, results)):
         e = sk["emb"]
-        if r.get("raised") or r.get("noresult") or ("colls" not in r and "onax" not in r):
+        if r.get("raised") or r.get("noresult") or ("colls" not in r and "onax" not in r and "obslines" not in r):
             ctx.failure({"clause": "plot-raised", "detail": {k: r.get(k) for k in ("raised", "msg")}}, {"kind": "plot", "job": jobs[i]}); continue
         c = {k: v for k, v in sk.items() if k != "emb"}
         lat = 1
@@ -119,6 +143,16 @@ def run(ctx):
             c["xlim"] = [D(r["xlim"][0]), D(r["xlim"][1])] if sk["hasrange"] else [fl_(r["xlim"][0]), ce_(r["xlim"][1])]
             c["ylim"] = [D(r["ylim"][0]), D(r["ylim"][1])] if (sk["hasrange"] and not sk["lifetime"]) else [fl_(r["ylim"][0]), ce_(r["ylim"][1])]
             c["xlabel"], c["ylabel"], c["stitle"], c["haslegend"], c["legtexts"] = r["xlabel"], r["ylabel"], r["title"], r["haslegend"], r["legtexts"]
+        elif sk["kind"] == "landscape":
+            c.pop("dr", None)
+            c["content"] = [[[D(x), D(y)] for x, y in d] for d in r["content"]]
+            c["obslines"] = [[[D(x), D(y)] for x, y in l] for l in r["obslines"]]
+            nd = len(r["content"])
+            c["depthsel"] = [k2 for k2 in range(sk["dr"][0], sk["dr"][1]) if k2 < nd] if sk["dr"] else []
+            if sk["dr"] and not c["depthsel"]:
+                c["depthsel"] = []
+                c["content"] = []          # nothing selected: nothing must be drawn
+            c["stitle"], c["xlabel"], c["ylabel"], c["onother"] = r["title"], r["xlabel"], r["ylabel"], r["onother"]
         else:
             c["rows"], c["maxrow"] = r["rows"], (r["maxrow"] if sk["fn"] == "bottleneck" else -1)
             segs = r["onax"]
